@@ -30,7 +30,9 @@
 # define N0MAX 3
 #endif
 #define ES 4
-#define NTAG 16
+#ifndef NTAG
+# define NTAG 16
+#endif
 #define POISON 0xDEAD0000u
 
 #define OP_SET 1
